@@ -197,10 +197,43 @@ def generate(tier, seed):
         ls = rnd.sample(allg, rnd.randint(0, 4))
         cases.append(make_case(d, sp, rs, ls, reqs, rnd, rnd.choice("MFS")))
         dist["random_matchers"] += 1
+    # states BUILT AT RUN TIME: deeper role graphs (chains, diamonds, redundant and cyclic paths over 5 names) grown and
+    # pruned by management calls before the requests, so the decisions depend on the graph the incremental updates left
+    n_rt = 120 if tier == "quick" else 3000
+    names = ["alice", "bob", "staff", "admin", "root"]
+    dist["runtime_built"] = 0
+    for i in range(n_rt):
+        name = rnd.choice(["rbac", "rbac_DO", "rbac_PR", "rbac_dom", "rbac_res"])
+        d = K[name]
+        sp = spec_of(d)
+        dom = bool(d.get("dom"))
+        steps = []
+        live = []
+        for _ in range(rnd.randint(3, 10)):
+            if live and rnd.random() < 0.35:
+                l = rnd.choice(live)
+                live.remove(l)
+                steps.append(R("g", "g", l))
+            else:
+                a, b = rnd.sample(names, 2)
+                l = [a, b] + ([rnd.choice(DOMS)] if dom else [])
+                if l not in live:
+                    live.append(l)
+                steps.append(A("g", "g", l))
+        prs = []
+        for _ in range(rnd.randint(1, 3)):
+            r = [rnd.choice(names)] + ([rnd.choice(DOMS)] if dom else []) + [rnd.choice(OBJS), "read"] + ([rnd.choice(EFTS)] if "eft" in d["p"] else [])
+            prs.append(r)
+            steps.append(A("p", "p", r))
+        reqs = [[s_] + ([dm] if dom else []) + [o, "read"] for s_ in names for dm in (DOMS if dom else [None]) for o in OBJS]
+        steps += [Q_e(r) for r in reqs] + ["?ga:p", "?ga:g"]
+        cases.append(case("eng", sp, adapter_M([]), "-", steps))
+        dist["runtime_built"] += 1
     return {
         "cases": cases,
         "exhaustive": False,
-        "rule": ("%d documented model kinds (ACL, superuser, without users/resources, RBAC, resource roles, domains; deny-override, "
+        "rule": ("[run-time built] role graphs over 5 names grown and pruned by add/remove_grouping_policy calls (redundant paths, cycles, re-adds) before the "
+                 "request cross product; [loaded] %d documented model kinds (ACL, superuser, without users/resources, RBAC, resource roles, domains; deny-override, "
                  "allow-and-deny, priority variants with an effect column incl. a value that is neither allow nor deny; keyMatch; ABAC attribute; "
                  "`in`; rule-in-policy eval) x policies of <= %d rules (every ordered list when the space fits the budget, sampled otherwise) x <= 2 role links, "
                  "loaded through Memory/File/String adapters, x the request cross product (+ out-of-universe, empty, wrong-arity, int- and map-typed values); "
